@@ -343,3 +343,84 @@ theorem drop_unreferenced_solution (g : LGraph) (K : List Obj) (hKt : ∀ k ∈ 
       simpa using this
 
 end Dask.TaskTerm
+
+namespace Dask.TaskTerm
+
+/-! ### soundness of the `fuseOK` checker -/
+
+theorem finalTerm_eval (g : LGraph) (K S : List Obj) (cache ρ : Obj → Option Obj) (hsol : Solution g K cache ρ)
+    (hS : ∀ c ∈ S, inKeys K c = true) : ∀ (fuel : Nat) (t : Obj),
+    evalObj K ρ (finalTerm g K S fuel t) = evalObj K ρ t
+  | 0, t => rfl
+  | fuel + 1, t => by
+    unfold finalTerm
+    -- fold invariant: the accumulated term keeps the value of `t`
+    have key : ∀ (cs : List Obj) (acc : Obj), evalObj K ρ acc = evalObj K ρ t →
+        evalObj K ρ (cs.foldl (fun acc c =>
+          if S.contains c then
+            match g.lookup c with
+            | some tc => subs c (finalTerm g K S fuel tc) acc
+            | none => acc
+          else acc) acc) = evalObj K ρ t := by
+      intro cs
+      induction cs with
+      | nil => intro acc h; simpa using h
+      | cons c cs ih =>
+        intro acc h
+        simp only [List.foldl_cons]
+        apply ih
+        by_cases hc : S.contains c = true
+        · simp only [hc, if_true]
+          cases hl : g.lookup c with
+          | none => simpa using h
+          | some tc =>
+            simp only
+            have hcS : c ∈ S := by simpa using hc
+            have hv : ρ c = evalObj K ρ (finalTerm g K S fuel tc) := by
+              rw [finalTerm_eval g K S cache ρ hsol hS fuel tc]
+              have := hsol c
+              rw [hl] at this
+              exact this
+            rw [subs_eval K ρ c _ (hS c hcS) hv acc, h]
+        · simp only [hc, Bool.false_eq_true, if_false]
+          exact h
+    exact key _ t rfl
+
+/-- **Soundness of the checker**: if `fuseOK g h S req` accepts, then every valuation that satisfies the equations of
+    the input graph satisfies the equations of the output graph (over the output's own key set), and every requested
+    key is a key of the output. With `dag_values_unique` the requested values are therefore unchanged. -/
+theorem fuseOK_sound (g h : LGraph) (S req : List Obj) (hok : fuseOK g h S req = true)
+    (hKt : ∀ k ∈ g.map Prod.fst, k.keyTyped = true) (cache ρ : Obj → Option Obj)
+    (hsol : Solution g (g.map Prod.fst) cache ρ) :
+    (∀ k ∈ req, k ∈ h.map Prod.fst) ∧
+    ∀ k t, (k, t) ∈ h → ρ k = evalObj (h.map Prod.fst) ρ t := by
+  unfold fuseOK at hok
+  simp only [Bool.and_eq_true, List.all_eq_true, List.contains_eq_mem, decide_eq_true_eq, Bool.or_eq_true] at hok
+  obtain ⟨⟨⟨⟨h1, h2⟩, h3⟩, h4⟩, h5⟩ := hok
+  refine ⟨h4, ?_⟩
+  intro k t hkt
+  have hk1 := h1 (k, t) hkt
+  simp only at hk1
+  cases hl : g.lookup k with
+  | none => rw [hl] at hk1; cases hk1
+  | some t0 =>
+    rw [hl] at hk1
+    have hteq : t = finalTerm g (g.map Prod.fst) S (g.length + 1) t0 := eq_of_beq hk1
+    have hρ : ρ k = evalObj (g.map Prod.fst) ρ t0 := by
+      have := hsol k; rw [hl] at this; exact this
+    rw [hρ, ← finalTerm_eval g (g.map Prod.fst) S cache ρ hsol h5 (g.length + 1) t0, ← hteq]
+    symm
+    apply evalObj_restrict (g.map Prod.fst) (h.map Prod.fst) ρ ρ
+    · intro x hx
+      obtain ⟨⟨k', t'⟩, hm, rfl⟩ := List.mem_map.mp hx
+      have := h1 (k', t') hm
+      simp only at this
+      cases hl' : g.lookup k' with
+      | none => rw [hl'] at this; cases this
+      | some t'' => exact lookup_isSome_mem_keys g k' (by simp [hl'])
+    · exact hKt
+    · intro _ _; rfl
+    · intro d hd
+      exact h3 (k, t) hkt d hd
+
+end Dask.TaskTerm
